@@ -200,6 +200,8 @@ def freeze(v):
         return ("slice", tuple(v.heap[v.start:v.start + v.len]))
     if isinstance(v, Opaque):
         return ("opaque", v.name)
+    if type(v).__name__ == "StrBuf":
+        return ("slice", tuple(v.b))
     if isinstance(v, Ref):
         # compare references by referent (shared borrows of plain data)
         try:
